@@ -235,19 +235,21 @@ impl Redirector {
         self.attach_bpf_prog(&mut bpf_object)?;
         logger::write_information("Success attached bpf prog.".to_string());
 
-        if let Err(e) = self
-            .redirector_shared_state
-            .update_bpf_object(Arc::new(Mutex::new(bpf_object)))
-            .await
-        {
-            logger::write_error(format!("Failed to update bpf object in shared state: {e}"));
-        }
+        // publish the local port before the bpf object: whoever sees the object (the key keeper's
+        // redirect policy updates) must also see the port to redirect to, never the initial 0
         if let Err(e) = self
             .redirector_shared_state
             .set_local_port(self.local_port)
             .await
         {
             logger::write_error(format!("Failed to set local port in shared state: {e}"));
+        }
+        if let Err(e) = self
+            .redirector_shared_state
+            .update_bpf_object(Arc::new(Mutex::new(bpf_object)))
+            .await
+        {
+            logger::write_error(format!("Failed to update bpf object in shared state: {e}"));
         }
         let message = helpers::write_startup_event(
             "Started Redirector with eBPF maps",
